@@ -56,6 +56,12 @@ type Episode struct {
 	NSigs   int          `json:"nsigs,omitempty"`  // signatures observed before the crash
 	AtIndex uint32       `json:"at_index,omitempty"` // wallet-xmss: index at which they are taken
 	Forms   []string     `json:"forms,omitempty"`  // restore paths exercised
+	// ExportLate (wallet-xmss): the secrets are exported only after the key has
+	// been used to its last leaf; observations are taken at the start as usual
+	ExportLate bool `json:"export_late,omitempty"`
+	// Regen (xmss crash ops): after a restart the durable record is re-exported
+	// from the rebuilt object, so that the next restart is second-generation
+	Regen bool `json:"regen,omitempty"`
 }
 
 // EntropyPlan scripts the simulated entropy source behind crypto/rand.Reader.
